@@ -362,8 +362,13 @@ def main(argv):
       'wall_s': round(wall, 2),
       'violations': len(failures),
   }
-  os.makedirs(os.path.join(HERE, 'evidence'), exist_ok=True)
-  with open(os.path.join(HERE, 'evidence', prop_id + '.json'), 'w') as f:
+  # evidence/ only ever describes runs against /repo itself; runs against another tree
+  # (VERIF_REPO=<scratch copy with a mutant or a proposed fix>) are kept apart
+  ev_dir = 'evidence'
+  if os.path.realpath(os.environ.get('VERIF_REPO', '/repo')) != '/repo':
+    ev_dir = os.path.join('out', 'evidence-other-tree')
+  os.makedirs(os.path.join(HERE, ev_dir), exist_ok=True)
+  with open(os.path.join(HERE, ev_dir, prop_id + '.json'), 'w') as f:
     json.dump(evidence, f, indent=1, default=repr)
     f.write('\n')
 
